@@ -81,7 +81,7 @@ type c18JwtEnv struct {
 	rsaKey  *rsa.PrivateKey
 	ecKey   *ecdsa.PrivateKey
 	frozen  time.Time
-	probe   []string // claim names the handler looks for in its context
+	probe   []string // claim names the handler always looks for in its context
 }
 
 var c18StdClaims = []string{"aud", "exp", "jti", "iat", "iss", "nbf", "sub"}
@@ -117,7 +117,7 @@ func c18NewJwtEnv(t *testing.T, r *rand.Rand) *c18JwtEnv {
 		frozen: time.Now().Truncate(time.Second),
 	}
 	names := map[string]bool{}
-	for _, cs := range []string{"A", "B", "none"} {
+	for _, cs := range []string{"A", "B", "none", "mixed"} {
 		for k := range e.claimSet(cs, nil) {
 			names[k] = true
 		}
@@ -162,7 +162,86 @@ func (e *c18JwtEnv) claimSet(name string, r *rand.Rand) map[string]json.RawMessa
 			"scope": v(`"root"`),
 		}
 	}
-	return map[string]json.RawMessage{}
+	// the name classes of Gates!ClaimSets: a few names of the class (seeded random members), next to
+	// one ordinary claim; values of any JSON type
+	out := map[string]json.RawMessage{}
+	val := func() json.RawMessage {
+		return v(`"tenant-7"`, `"partner gw"`, `""`, `42`, `0`, `-1.5`, `true`, `false`, `["x","y"]`, `[]`,
+			`{"id":1,"tag":"t"}`, `18446744073709551615`, `"1790000000"`, `1790000000`)
+	}
+	add := func(cls string, n int) {
+		pool := c18ClaimNames(cls, r)
+		if r == nil {
+			n = len(pool)
+		}
+		for i := 0; i < n && len(pool) > 0; i++ {
+			j := 0
+			if r != nil {
+				j = r.Intn(len(pool))
+			}
+			out[pool[j]] = val()
+			pool = append(pool[:j:j], pool[j+1:]...)
+		}
+	}
+	switch name {
+	case "caseVar", "affix", "odd", "hdrField":
+		n := 2
+		if r != nil {
+			n = 1 + r.Intn(4)
+		}
+		add(name, n)
+		out["uid"] = v(`"carol"`, `"c"`)
+	case "mixed":
+		for _, cls := range []string{"caseVar", "affix", "odd", "hdrField"} {
+			add(cls, 2)
+		}
+		for k, x := range e.claimSet("A", r) {
+			out[k] = x
+		}
+	}
+	return out
+}
+
+// c18ClaimNames: private claim names of a name class.  None of them is one of the seven registered
+// names (that is Gates!RegisteredNames's business to decide: the names go into the trace as they are).
+func c18ClaimNames(cls string, r *rand.Rand) []string {
+	switch cls {
+	case "caseVar":
+		var out []string
+		seen := map[string]bool{}
+		for _, n := range c18StdClaims {
+			cands := []string{strings.ToUpper(n[:1]) + n[1:], strings.ToUpper(n), n[:len(n)-1] + strings.ToUpper(n[len(n)-1:])}
+			if r != nil {
+				b := []byte(n)
+				b[r.Intn(len(b))] -= 'a' - 'A'
+				for j := range b {
+					if b[j] >= 'a' && r.Intn(3) == 0 {
+						b[j] -= 'a' - 'A'
+					}
+				}
+				cands = append(cands, string(b))
+			}
+			for _, c := range cands {
+				if !seen[c] {
+					seen[c] = true
+					out = append(out, c)
+				}
+			}
+		}
+		return out
+	case "affix":
+		out := []string{"subject", "issuer", "audience", "expires", "expiry", "su", "jt", "is", "ex", "nb"}
+		for _, n := range c18StdClaims {
+			out = append(out, n+"_", "_"+n, n+" ", " "+n, n+".", "x-"+n, n+"2", n+n, n+"/"+n)
+		}
+		return out
+	case "odd":
+		return []string{"", " ", "a b", "a.b", "a/b:c", "$ref", "__proto__", "0", "17", "true", "null", "-", "k=v;x",
+			"UID", "Uid", "x-" + strings.Repeat("long", 60)}
+	case "hdrField":
+		return []string{"alg", "typ", "kid", "cty", "Authorization", "authorization", "secret", "key", "signature", "Bearer"}
+	}
+	return nil
 }
 
 func (e *c18JwtEnv) timeClaim(cls string) (json.RawMessage, bool) {
@@ -227,10 +306,9 @@ func c18IsStd(k string) bool {
 
 // payload builds the claims object: non-standard claims of the set, the time claims by class,
 // and a few other registered claims.
-func (e *c18JwtEnv) payload(tok c18Tok, claims, exp string, pick *rand.Rand) (raw []byte, nonStd map[string]json.RawMessage) {
-	nonStd = e.claimSet(claims, pick)
-	all := map[string]json.RawMessage{}
-	for k, v := range nonStd {
+func (e *c18JwtEnv) payload(tok c18Tok, claims, exp string, pick *rand.Rand) (raw []byte, all map[string]json.RawMessage) {
+	all = map[string]json.RawMessage{}
+	for k, v := range e.claimSet(claims, pick) {
 		all[k] = v
 	}
 	if v, ok := e.timeClaim(exp); ok {
@@ -246,7 +324,7 @@ func (e *c18JwtEnv) payload(tok c18Tok, claims, exp string, pick *rand.Rand) (ra
 	all["iss"] = json.RawMessage(`"issuer"`)
 	all["jti"] = json.RawMessage(`"id-77"`)
 	all["aud"] = json.RawMessage(`"audience"`)
-	return c18Marshal(all), nonStd
+	return c18Marshal(all), all
 }
 
 func c18HmacMethod(alg string) jwt.SigningMethod {
@@ -275,11 +353,11 @@ func c18Header(alg string) string {
 	return c18b64(h)
 }
 
-// build returns the Authorization header value (set=false: no header at all) and the
-// non-standard claims of the payload that is transmitted.
+// build returns the Authorization header value (set=false: no header at all) and every claim
+// (registered or not) of the payload that is transmitted.
 func (e *c18JwtEnv) build(t *testing.T, tok c18Tok, pick *rand.Rand) (hdr string, set bool, sent [][]string) {
 	seedPick := pick.Int63()
-	praw, nonStd := e.payload(tok, tok.Claims, tok.Exp, rand.New(rand.NewSource(seedPick)))
+	praw, sentClaims := e.payload(tok, tok.Claims, tok.Exp, rand.New(rand.NewSource(seedPick)))
 	h := c18Header(tok.Alg)
 	p := c18b64(praw)
 	switch tok.Shape {
@@ -343,16 +421,16 @@ func (e *c18JwtEnv) build(t *testing.T, tok c18Tok, pick *rand.Rand) (hdr string
 		if tok.Claims == "A" {
 			other = "B"
 		}
-		praw, nonStd = e.payload(tok, other, tok.Exp, rand.New(rand.NewSource(seedPick)))
+		praw, sentClaims = e.payload(tok, other, tok.Exp, rand.New(rand.NewSource(seedPick)))
 		p = c18b64(praw)
 	case "expSwapped":
-		praw, nonStd = e.payload(tok, tok.Claims, "future2", rand.New(rand.NewSource(seedPick)))
+		praw, sentClaims = e.payload(tok, tok.Claims, "future2", rand.New(rand.NewSource(seedPick)))
 		p = c18b64(praw)
 	case "hdrSwapped":
 		h = c18Header(c18SwapAlg(tok.Alg))
 	}
 	token := h + "." + p + "." + sig
-	sent = c18Pairs(nonStd)
+	sent = c18Pairs(sentClaims)
 	switch tok.Shape {
 	case "missing":
 		return "", false, sent
@@ -380,6 +458,7 @@ type c18JwtGate struct {
 	calls   int
 	seen    [][]string
 	hstatus int
+	probe   []string // claim names the handler looks for in its context (per request)
 }
 
 func (e *c18JwtEnv) newGate(t *testing.T, prev, withCallback bool) *c18JwtGate {
@@ -391,7 +470,7 @@ func (e *c18JwtEnv) newGate(t *testing.T, prev, withCallback bool) *c18JwtGate {
 	g.h = c18MakeJwtGate(t, e.secrets["cur"], prevSecret, withCallback, http.HandlerFunc(func(w http.ResponseWriter, r *http.Request) {
 		g.calls++
 		g.seen = [][]string{}
-		for _, k := range e.probe {
+		for _, k := range g.probe {
 			if v := r.Context().Value(k); v != nil {
 				b, err := json.Marshal(v)
 				if err != nil {
@@ -408,6 +487,19 @@ func (e *c18JwtEnv) newGate(t *testing.T, prev, withCallback bool) *c18JwtGate {
 
 func (g *c18JwtGate) request(t *testing.T, em *verifEmitter, tok c18Tok, pick *rand.Rand) {
 	hdr, set, sent := g.env.build(t, tok, pick)
+	// the handler looks for every name that was sent, next to the fixed vocabulary
+	names := map[string]bool{}
+	for _, k := range g.env.probe {
+		names[k] = true
+	}
+	for _, p := range sent {
+		names[p[0]] = true
+	}
+	g.probe = g.probe[:0]
+	for k := range names {
+		g.probe = append(g.probe, k)
+	}
+	sort.Strings(g.probe)
 	methods := []string{http.MethodGet, http.MethodPost, http.MethodDelete}
 	req := httptest.NewRequest(methods[pick.Intn(len(methods))], "http://localhost/protected?x=1", http.NoBody)
 	if set {
@@ -549,6 +641,7 @@ type c18Cs struct {
 	Plen    int    `json:"plen"`
 	Rlen    int    `json:"rlen"`
 	Chunks  int    `json:"chunks"`
+	Xfer    string `json:"xfer"`
 }
 
 type c18RsaPair struct {
@@ -870,15 +963,22 @@ func (e *c18CsEnv) run(t *testing.T, em *verifEmitter, c c18Cs) {
 		url += "?" + q
 	}
 	var body io.Reader = http.NoBody
-	pieces := c.Body != "none" && r.Intn(2) == 0
+	chunked := c.Xfer == "chunked"
+	pieces := (c.Body != "none" && r.Intn(2) == 0) || (chunked && r.Intn(4) != 0)
 	if pieces {
 		// the body arrives in several reads, as it does from a network connection
-		body = &c18PieceReader{b: wire, rng: r}
-	} else if c.Body != "none" {
+		body = &c18PieceReader{b: append([]byte{}, wire...), rng: r}
+	} else if c.Body != "none" || chunked {
 		body = bytes.NewReader(wire)
 	}
 	req := httptest.NewRequest(c.Method, url, body)
-	if pieces {
+	if chunked {
+		// what net/http hands a handler for "Transfer-Encoding: chunked": no announced length, the
+		// body (possibly empty) ends where the stream ends
+		req.ContentLength = -1
+		req.TransferEncoding = []string{"chunked"}
+		req.Body = io.NopCloser(body)
+	} else if pieces {
 		req.ContentLength = int64(len(wire))
 	}
 	if c.Hdr == "present" {
